@@ -4,6 +4,7 @@ package main
 // public API, records the trace stream as a canonical event log, answers task requests on demand.
 
 import (
+	"reflect"
 	"context"
 	"fmt"
 	"strings"
@@ -141,8 +142,72 @@ func (p *Prog) XML(extra string) string {
 	return sb.String()
 }
 
+// ParseDefs remembers the text a document was parsed from: when an instance made from it is closed, the document is
+// compared with a fresh parse of the same text (running instances only read the definitions they share)
+var defsText sync.Map // *schema.Definitions -> string
+
 func ParseDefs(xmlText string) (*schema.Definitions, error) {
-	return schema.Parse([]byte(xmlText))
+	d, err := schema.Parse([]byte(xmlText))
+	if err == nil {
+		defsText.Store(d, xmlText)
+	}
+	return d, err
+}
+
+// ParseDefsShared parses a text once: every later caller gets the same parsed document (several instances of one
+// document, one after the other and side by side, as an application would use it)
+var defsByText sync.Map // string -> *schema.Definitions
+
+func ParseDefsShared(xmlText string) (*schema.Definitions, error) {
+	if d, ok := defsByText.Load(xmlText); ok {
+		return d.(*schema.Definitions), nil
+	}
+	d, err := ParseDefs(xmlText)
+	if err == nil {
+		defsByText.Store(xmlText, d)
+	}
+	return d, err
+}
+
+// sharedFindings: findings of oracles that watch every instance of every scenario (merged into the report of the
+// running command by WriteReport)
+var sharedFindings struct {
+	sync.Mutex
+	list []Violation
+	seen map[string]bool
+}
+
+func sharedFinding(key, c, detail string) {
+	sharedFindings.Lock()
+	defer sharedFindings.Unlock()
+	if sharedFindings.seen == nil {
+		sharedFindings.seen = map[string]bool{}
+	}
+	if sharedFindings.seen[key+c] || len(sharedFindings.list) >= 6 {
+		return
+	}
+	sharedFindings.seen[key+c] = true
+	sharedFindings.list = append(sharedFindings.list, Violation{key, c, detail})
+}
+
+// checkDefsUntouched compares the definitions an instance was made from with a fresh parse of their text
+func checkDefsUntouched(defs *schema.Definitions) {
+	t, ok := defsText.Load(defs)
+	if !ok {
+		return
+	}
+	fresh, err := schema.Parse([]byte(t.(string)))
+	if err != nil {
+		return
+	}
+	if !reflect.DeepEqual(defs, fresh) {
+		txt := t.(string)
+		if len(txt) > 1500 {
+			txt = txt[:1500] + "..."
+		}
+		sharedFinding("shared-definitions", "document "+txt, "an instance made from this parsed document changed it: after the run it differs from a fresh parse of the same text (other instances of the document see the change)")
+		defsText.Delete(defs) // reported once
+	}
 }
 
 // ---------- id generator shared by all instances of a harness process ----------
@@ -212,6 +277,7 @@ type Inst struct {
 	Cancel  context.CancelFunc
 	mu      sync.Mutex
 	cond    *sync.Cond
+	defs    *schema.Definitions
 	log     []Ev
 	pending map[string][]bpmn.TaskTrace
 	ntask   map[string]int
@@ -245,7 +311,7 @@ type InstOpt struct {
 // attached BEFORE start, and starts all start events.
 func StartInst(defs *schema.Definitions, o InstOpt) (*Inst, error) {
 	ctx, cancel := context.WithCancel(context.Background())
-	in := &Inst{Ctx: ctx, Cancel: cancel, pending: map[string][]bpmn.TaskTrace{}, ntask: map[string]int{}, raw: o.Raw}
+	in := &Inst{Ctx: ctx, Cancel: cancel, pending: map[string][]bpmn.TaskTrace{}, ntask: map[string]int{}, raw: o.Raw, defs: defs}
 	in.cond = sync.NewCond(&in.mu)
 	opts := []bpmn.Option{bpmn.WithContext(ctx), bpmn.WithIdGenerator(sharedGen)}
 	if o.Vars != nil {
@@ -452,6 +518,9 @@ func (in *Inst) WaitCease(timeout time.Duration) bool {
 
 func (in *Inst) Close() {
 	in.Cancel()
+	if in.defs != nil {
+		checkDefsUntouched(in.defs)
+	}
 }
 
 func (in *Inst) Signal(name string) (event.ConsumptionResult, error) {
